@@ -3,6 +3,8 @@ package h
 import (
 	"encoding/json"
 	"fmt"
+	"math"
+	"net/url"
 	"reflect"
 	"sort"
 	"strconv"
@@ -131,6 +133,71 @@ func agree(a, b any) bool {
 	return reflect.DeepEqual(ua, ub)
 }
 
+// Typed catalogue: one Go value holding every container kind the statement names (maps, slices, arrays,
+// pointers, structs by field name or JSON tag), bound under "ty" in the root scope of every stack, and a table
+// of paths with the result ordinary Go indexing gives - written out by hand from the Go value, not computed by
+// any resolver. Only paths the statement settles are listed (missing key, out-of-range or negative index, nil
+// pointer, unexported field => absent; everything else => the element).
+type tyInner struct {
+	Name   string `json:"name"`
+	N      int    `json:"n"`
+	hidden string
+}
+type tyBase struct {
+	Kind string `json:"kind"`
+}
+type tyEmb struct {
+	*tyBase
+	Title string `json:"title"`
+}
+type tyVal struct {
+	SM     map[string]string            `json:"sm"`
+	SS     []string                     `json:"ss"`
+	Arr    [2]int                       `json:"arr"`
+	P      *tyInner                     `json:"p"`
+	NilP   *tyInner                     `json:"nilp"`
+	PP     **tyInner                    `json:"pp"`
+	Emb    tyEmb                        `json:"emb"`
+	Files  map[string]any               `json:"files"`
+	Link   *url.URL                     `json:"link"`
+	IM     map[string]int               `json:"im"`
+	Nested map[string]map[string]string `json:"nested"`
+	LS     []map[string]string          `json:"ls"`
+	NaN    map[float64]string           `json:"nan"`
+}
+
+func tyValue() *tyVal {
+	in := &tyInner{Name: "in", N: 3, hidden: "h"}
+	return &tyVal{
+		SM: map[string]string{"k": "v", "empty": ""}, SS: []string{"x", "y"}, Arr: [2]int{7, 8}, P: in, PP: &in,
+		Emb:    tyEmb{Title: "t"},
+		Files:  map[string]any{"index.html": "the page", "index": map[string]any{"html": "IMPOSTOR"}},
+		IM:     map[string]int{"one": 1, "zero": 0},
+		Nested: map[string]map[string]string{"a": {"b": "ab"}},
+		LS:     []map[string]string{{"k": "ls0"}},
+		NaN:    map[float64]string{math.NaN(): "nan", 1: "one"},
+	}
+}
+
+type tyCase struct {
+	path string
+	want any
+	ok   bool
+}
+
+var tyTable = []tyCase{
+	{"ty.sm.k", "v", true}, {"ty.sm.nokey", nil, false}, {`ty.sm["nokey"]`, nil, false}, {"ty.sm['k']", "v", true}, {"ty.sm.empty", "", true},
+	{"ty.ss[1]", "y", true}, {"ty.ss[2]", nil, false}, {"ty.ss[-1]", nil, false}, {"ty.ss.0", "x", true},
+	{"ty.arr[1]", 8, true}, {"ty.arr[2]", nil, false}, {"ty.arr[-1]", nil, false},
+	{"ty.p.name", "in", true}, {"ty.P.Name", "in", true}, {"ty.p.n", 3, true}, {"ty.p.hidden", nil, false}, {"ty.p.nofield", nil, false},
+	{"ty.nilp.name", nil, false}, {"ty.pp.name", "in", true},
+	{"ty.emb.title", "t", true}, {"ty.emb.Kind", nil, false}, {"ty.Emb.Title", "t", true},
+	{`ty.files["index.html"]`, "the page", true}, {`ty.files['index.html']`, "the page", true}, {`ty.files["about.html"]`, nil, false}, {"ty.files.index.html", "IMPOSTOR", true},
+	{"ty.im.one", 1, true}, {"ty.im.zero", 0, true}, {"ty.im.none", nil, false},
+	{"ty.nested.a.b", "ab", true}, {"ty.nested.a.zz", nil, false}, {"ty.nested.zz.b", nil, false},
+	{"ty.ls[0].k", "ls0", true}, {"ty.ls[0].nokey", nil, false}, {"ty.ls[1].k", nil, false},
+}
+
 func c17Value(r *Rand, tag string) any {
 	switch r.Intn(7) {
 	case 6:
@@ -201,6 +268,8 @@ func genC17(seed uint64, run int, tier string) *RunSpec {
 			op.Path = Pick(r, []string{"a.b", "a.c[0]", "a.c[2].d", "b[1]", "c.b", "a.c[9]", "a['b']", "user.name", "a.c[-1]", "zz.q", "a.b.c", "a['b c']", "a['bc']", "c['b c']", "c['bc']"})
 			if r.Chance(30) {
 				op.Path = fmt.Sprintf("a.p%d", r.Intn(400)) // fresh paths (path cache misses)
+			} else if r.Chance(35) {
+				op.Path = tyTable[r.Intn(len(tyTable))].path // typed containers
 			}
 		case k < 84:
 			op.Op = "envmap"
@@ -214,11 +283,14 @@ func genC17(seed uint64, run int, tier string) *RunSpec {
 			}
 		case k < 92:
 			op.Op = "foreach"
-			op.Path = Pick(r, []string{"a.c", "b", "c", "a"})
+			op.Path = Pick(r, []string{"a.c", "b", "c", "a", "ty.nan", "ty.ss", "ty.sm"})
 			op.Name = Pick(r, []string{"it", "a", "b"})
 		case k < 95:
 			op.Op = "getstring"
 			op.Path = Pick(r, []string{"a", "b", "c", "a.b", "n"})
+			if r.Chance(25) {
+				op.Path = Pick(r, []string{"ty.link", "ty.sm.nokey", "ty.sm.k", "ty.p.name", "ty.nilp"})
+			}
 		case k < 97:
 			op.Op = "getint"
 			op.Path = Pick(r, []string{"a", "b", "c", "n"})
@@ -240,6 +312,14 @@ func genC17(seed uint64, run int, tier string) *RunSpec {
 }
 
 func c17Root(d DataSpec) (map[string]any, any) {
+	m, root := c17RootPlain(d)
+	if m != nil {
+		m["ty"] = tyValue()
+	}
+	return m, root
+}
+
+func c17RootPlain(d DataSpec) (map[string]any, any) {
 	switch d.Shape {
 	case "nil":
 		return nil, nil
@@ -388,6 +468,17 @@ func execC17(spec *RunSpec) *Result {
 				if strings.HasPrefix(op.Path, "user.") {
 					break // struct traversal belongs to the (unclaimed) path-resolution half
 				}
+				if strings.HasPrefix(op.Path, "ty.") {
+					if _, bound := ms.lookup("ty"); !bound {
+						break
+					}
+					for _, tc := range tyTable {
+						if tc.path == op.Path && (tc.ok != rok || (tc.ok && !reflect.DeepEqual(tc.want, rv))) {
+							fail(i, op, "resolve-mismatch", "Resolve disagrees with ordinary Go indexing on a typed container", "Resolve(%q) = (%v,%v), Go indexing gives (%v,%v)", op.Path, rv, rok, tc.want, tc.ok)
+						}
+					}
+					break
+				}
 				if mok != rok || (mok && !agree(mv, rv)) {
 					fail(i, op, "resolve-mismatch", "Resolve disagrees with the model on a map/slice path", "Resolve(%q) = (%v,%v), model (%v,%v)", op.Path, rv, rok, mv, mok)
 				}
@@ -416,6 +507,22 @@ func execC17(spec *RunSpec) *Result {
 				if err != nil {
 					fail(i, op, "foreach-error", "ForEach returned an error", "%v", err)
 				}
+				if _, bound := ms.lookup("ty"); strings.HasPrefix(op.Path, "ty.") {
+					if !bound {
+						break
+					}
+					// what a Go range over the typed collection visits (values only; order is not claimed)
+					vals := map[string][]string{"ty.nan": {"nan", "one"}, "ty.ss": {"x", "y"}, "ty.sm": {"", "v"}}[op.Path]
+					var gv []string
+					for _, g := range got {
+						gv = append(gv, g[strings.Index(g, "=")+1:strings.LastIndex(g, "/")])
+					}
+					sort.Strings(gv)
+					if strings.Join(gv, "|") != strings.Join(vals, "|") {
+						fail(i, op, "foreach-mismatch", "ForEach visits other elements than a Go range over the typed collection", "ForEach(%q) visited %q, a Go range visits %q", op.Path, gv, vals)
+					}
+					break
+				}
 				if mok {
 					switch c := mv.(type) {
 					case []any:
@@ -441,6 +548,17 @@ func execC17(spec *RunSpec) *Result {
 			case "getstring":
 				mv, mok := ms.resolve(splitSimplePath(op.Path))
 				gs, gok := rs.GetString(op.Path)
+				if strings.HasPrefix(op.Path, "ty.") {
+					if _, bound := ms.lookup("ty"); !bound {
+						break
+					}
+					// ty.link (a nil *url.URL) and ty.nilp only must not panic
+					want, settled := map[string][2]string{"ty.sm.nokey": {"", "false"}, "ty.sm.k": {"v", "true"}, "ty.p.name": {"in", "true"}}[op.Path]
+					if settled && (gs != want[0] || fmt.Sprint(gok) != want[1]) {
+						fail(i, op, "getstring-mismatch", "GetString disagrees with ordinary Go indexing on a typed container", "GetString(%q) = (%q,%v), Go indexing gives (%q,%s)", op.Path, gs, gok, want[0], want[1])
+					}
+					break
+				}
 				if mok != gok || (mok && gs != fmt.Sprint(mv)) {
 					fail(i, op, "getstring-mismatch", "GetString disagrees with the model", "GetString(%q) = (%q,%v), model (%v,%v)", op.Path, gs, gok, mv, mok)
 				}
